@@ -52,7 +52,14 @@ fn main() {
     if tier != "quick" && tier != "thorough" {
         usage();
     }
-    let code = checks::run(&prop, tier);
+    // a panic that escapes every `guarded` call is a harness error: report where it came from (the hook is silent)
+    let code = match util::guarded(|| checks::run(&prop, tier)) {
+        Ok(c) => c,
+        Err(p) => {
+            println!("MACHINERY: unguarded panic in the harness at {}: {}", p.site, p.msg);
+            2
+        }
+    };
     std::process::exit(code);
 }
 
